@@ -13,9 +13,16 @@ Proof. exact upper_tables. Qed.
 
 (* the hash the library computes is the AmigaDOS hash of the folded name, for every byte string *)
 Theorem C15_hash_is_amiga_hash : forall (name : list Z) (intl : Z) (fuel : nat),
-  is_byte_string name -> Z.of_nat (length name) < 2 ^ 32 -> (length name < fuel)%nat ->
-  c_adfGetHashValue fuel name intl = Some (hash_name (negb (intl =? 0)) name).
+  is_byte_string name -> Z.of_nat (length name) < 2 ^ 32 -> (31 < fuel)%nat ->
+  c_adfGetHashValue fuel name intl = Some (hash_name (negb (intl =? 0)) (trunc30 name)).
 Proof. exact hash_gen. Qed.
+
+(* long names: creation, listing and lookup all work on the first 30 bytes, so a name and its stored
+   (truncated) form select the same slot *)
+Theorem C15_long_names : forall (name : list Z) (intl : Z) (fuel : nat),
+  is_byte_string name -> Z.of_nat (length name) < 2 ^ 32 -> (31 < fuel)%nat ->
+  c_adfGetHashValue fuel name intl = c_adfGetHashValue fuel (trunc30 name) intl.
+Proof. exact hash_long_names. Qed.
 
 (* names equal after folding share a hash slot; the slot is always inside the 72-entry table *)
 Theorem C15_hash_fold : forall intl a b,
@@ -30,11 +37,12 @@ Theorem C15_hash_case_variant : forall intl s, is_byte_string s ->
 Proof. exact hash_of_folded. Qed.
 
 Example C15_witness : hash_name true [102;105;108;101;65] = 66 /\ hash_name false [224] <> hash_name true [224] /\
-  c_adfGetHashValue 10 [102;105;108;101;65] 1 = Some 66.
+  c_adfGetHashValue 40 [102;105;108;101;65] 1 = Some 66.
 Proof. repeat split; vm_compute; try reflexivity; intro X; discriminate X. Qed.
 
 Print Assumptions C15_upper_tables.
 Print Assumptions C15_hash_is_amiga_hash.
+Print Assumptions C15_long_names.
 Print Assumptions C15_hash_fold.
 Print Assumptions C15_hash_range.
 Print Assumptions C15_hash_case_variant.
